@@ -18,6 +18,12 @@ VARIANTS = [
     {"hashseed": 1, "malloc": "malloc", "junk": 50000},
     {"hashseed": 2, "malloc": "pymalloc", "junk": 333333},
     {"hashseed": 3141592, "malloc": "malloc", "junk": 7},
+    {"hashseed": 3, "malloc": "pymalloc", "junk": 1000},
+    {"hashseed": 6, "malloc": "malloc", "junk": 0},
+    {"hashseed": 4, "malloc": "pymalloc", "junk": 123457},
+    {"hashseed": 5, "malloc": "malloc", "junk": 99},
+    {"hashseed": 7, "malloc": "pymalloc", "junk": 31},
+    {"hashseed": 271828, "malloc": "malloc", "junk": 4096},
 ]
 COMPETING = [
     # inputs on which several candidates compete inside set-iterating code
@@ -32,6 +38,79 @@ COMPETING = [
     "LONG = 'a constant that is long enough to be hoisted'\nprint('a constant that is long enough to be hoisted', 'another constant that is long enough to hoist', 'a constant that is long enough to be hoisted', 'another constant that is long enough to hoist', 'a constant that is long enough to be hoisted', 'another constant that is long enough to hoist', 'a constant that is long enough to be hoisted', 'another constant that is long enough to hoist', 'a constant that is long enough to be hoisted', 'another constant that is long enough to hoist')\n",
     "import numpy\nimport pandas\nx = np.zeros(3)\ny = pd.DataFrame()\nz = Path('.')\nw = Optional[int]\nprint(x, y, z, w, os.getcwd(), sys.argv, json.dumps(1), math.pi, re.compile('a'))\n",
 ]
+TIES = [
+    # inputs on which two candidates tie under the order the tool sorts by (same line number, same name, same count): the tie must not be broken by a set
+    "import abc  # pyrefact: ignore\nsys.path.append(os.getcwd())\nprint(re.findall, json.dumps, math.pi)\n",
+    "x = 1  # pyrefact: ignore\nprint(np.zeros(1), pd.NA, plt.plot, os.sep, Path('.'), Optional, defaultdict)\n",
+    'a = """abc"""\nb = "abc"\nprint(list((b, a, "abc")))\n',
+    "a = 'text'\nb = \"text\"\nc = \'\'\'text\'\'\'\nprint(list((a, b, c, 'text')), tuple([a, \"text\"]))\n",
+    'x = 1\na = f"""abc{x}"""\nb = f"abc{x}"\nprint(list((b, a, f"abc{x}")))\n',
+    "x = 2\na = f'v{x}'\nb = f\"v{x}\"\nprint(list((a, b, f'v{x}')), set([f\"v{x}\"]))\n",
+    "def colours(kind):\n" + "".join(f"    v{i} = kind.f{i}((255, 128, 64, 32, 16, 8, 4, 2))\n" for i in range(6)) + "    return v0, v1, v2, v3, v4, v5\n",
+    "async def colours(kind):\n" + "".join(f"    v{i} = kind.f{i}('a text that is used over and over again')\n" for i in range(6)) + "    return v0, v1, v2, v3, v4, v5\n",
+    "class Colours:\n    def all(self, kind):\n" + "".join(f"        v{i} = kind.f{i}([255, 128, 64, 32, 16, 8, 4, 2])\n" for i in range(6)) + "        return v0, v1, v2, v3, v4, v5\n",
+    "y = 1\nx = y + 1; print(x); print(x, 1); print(x, 2)\n",
+    "def f(y):\n    x = y + 1; print(x); print(x, 1); z = x; print(z)\n    return z\n\n\nprint(f(1))\n",
+    "a = 1; b = a; a = 2; print(a, b); b = 3; print(b)\n",
+    "import os; import sys; import os; from os import sep; from os import sep, getcwd; print(os, sys, sep, getcwd)\n",
+    "for i in range(3): x = i; y = x; print(y)\nif x: y = 1; z = y; print(z)\n",
+    "def f(): return 1\ndef g(): return 1\ndef h(): return 1\nprint(f(), g(), h())\n",
+    "class A: x = 1; y = 2; z = 3\nclass B: x = 1; y = 2; z = 3\nprint(A.x, B.y)\n",
+    "d = {}; d['a'] = 1; d['b'] = 2; d.update({'c': 3}); s = set(); s.add(1); s.add(2); print(d, s)\n",
+    "x = []\nfor i in range(3): x.append(i)\ny = []\nfor j in range(3): y.append(j); print(j)\nprint(x, y)\n",
+]
+
+
+def same_line(text):
+    """The module with pairs of neighbouring simple statements written on one line (`a; b`): same tree, and every pair ties on its line number."""
+    import ast
+
+    try:
+        tree = ast.parse(text)
+    except (SyntaxError, ValueError):
+        return None
+    lines = text.split("\n")
+    simple = (ast.Assign, ast.AugAssign, ast.AnnAssign, ast.Expr, ast.Return, ast.Pass, ast.Import, ast.ImportFrom, ast.Delete, ast.Assert, ast.Raise, ast.Global, ast.Nonlocal)
+    joined = set()
+    for node in ast.walk(tree):
+        for field in ("body", "orelse", "finalbody"):
+            body = getattr(node, field, None)
+            if not isinstance(body, list):
+                continue
+            i = 0
+            while i + 1 < len(body):
+                a, b = body[i], body[i + 1]
+                ok = (isinstance(a, simple) and isinstance(b, simple) and a.lineno == a.end_lineno and b.lineno == b.end_lineno and b.lineno == a.lineno + 1
+                      and a.col_offset == b.col_offset and "#" not in lines[a.lineno - 1] and "#" not in lines[b.lineno - 1] and a.lineno not in joined
+                      and lines[a.lineno - 1][:a.col_offset].strip() == "" and lines[b.lineno - 1][:b.col_offset].strip() == ""
+                      and not (isinstance(a, ast.Expr) and isinstance(a.value, ast.Constant) and isinstance(a.value.value, str)))
+                if ok:
+                    joined.add(a.lineno)
+                    i += 2
+                else:
+                    i += 1
+    if not joined:
+        return None
+    out = []
+    skip = False
+    for no, line in enumerate(lines, 1):
+        if skip:
+            skip = False
+            continue
+        if no in joined:
+            out.append(line.rstrip() + "; " + lines[no].strip())
+            skip = True
+        else:
+            out.append(line)
+    new = "\n".join(out)
+    try:
+        if ast.dump(ast.parse(new)) != ast.dump(tree):
+            return None
+    except (SyntaxError, ValueError):
+        return None
+    return new
+
+
 PATTERN_REQUESTS = [("{{s}}\n{{t}}", None), ("{{f}}({{...*}})", None), ("{{a}} = {{b}}", None), ("{{x}}", None),
                     ("{{f}}({{...*}})", "g()"), ("{{a}} = {{b}}", "{{b}} = {{a}}"), ("{{s}}\n{{t}}", "pass")]
 
@@ -60,7 +139,17 @@ def w_requests(arg):
                 opts = dict(q.get("options") or {})
                 if "preserve" in opts:
                     opts["preserve"] = frozenset(opts["preserve"])
-                out.append({"out": m["main"].format_code(q["text"], **opts)})
+                first = m["main"].format_code(q["text"], **opts)
+                rec = {"out": first}
+                for k in range(q.get("again", 0)):
+                    # the same request again in this process after the heap has moved: sets of syntax nodes iterate in another order
+                    _JUNK.append([object() for _ in range(997 * (k + 1))])
+                    m["core"].parse.cache_clear()
+                    again = m["main"].format_code(q["text"], **opts)
+                    if again != first:
+                        rec["again_differs"] = again
+                        break
+                out.append(rec)
             elif q["kind"] == "findall":
                 out.append({"out": pm.findall(q["pattern"], q["text"])})
             elif q["kind"] == "sub":
@@ -285,10 +374,15 @@ def main() -> int:
     from . import c05, c09
 
     # (the hand-written texts of C05 / C09 too: several numbered generated constants, guessed imports in a doc-stringed module, competing rewrites)
-    texts = COMPETING + list(c05.FIXED_TEXTS) + list(c09.ANTAGONISTS[:6]) + r.sample(ex, 500 if thorough else 150)
+    sampled = r.sample(ex, 500 if thorough else 150)
+    squeezed = [t2 for t2 in (same_line(t) for t in sampled[:300 if thorough else 90]) if t2]
+    texts = COMPETING + list(c05.FIXED_TEXTS) + list(c09.ANTAGONISTS[:6]) + sampled + squeezed
     requests = []
+    for t in TIES:
+        for o in ({}, {"safe": True}):
+            requests.append({"kind": "format", "text": t, "options": o, "again": 6})
     for i, t in enumerate(texts):
-        requests.append({"kind": "format", "text": t, "options": [{}, {"safe": True}, {"keep_imports": True}, {"max_line_length": 60}][i % 4]})
+        requests.append({"kind": "format", "text": t, "options": [{}, {"safe": True}, {"keep_imports": True}, {"max_line_length": 60}][i % 4], "again": 2 if (t in squeezed or i % 5 == 0) else 0})
         if i % 3 == 0:
             pat, rep = PATTERN_REQUESTS[(i // 3) % len(PATTERN_REQUESTS)]
             if rep is None:
@@ -302,8 +396,9 @@ def main() -> int:
         requests.append({"kind": "sched", "text": "a = 1\nif a:\n    b = 2\n    c = 3\nd = 4\n", "groups": groups})
     batches = [requests[i:i + 10] for i in range(0, len(requests), 10)]
     outputs = []
-    for var in VARIANTS:
-        with pool.Pool(n=8, hashseed=var["hashseed"], extra_env={"PYTHONMALLOC": var["malloc"], "VERIF_JUNK": var["junk"]}) as p:
+    variants = VARIANTS if thorough else VARIANTS[:6]
+    for var in variants:
+        with pool.Pool(n=16, hashseed=var["hashseed"], extra_env={"PYTHONMALLOC": var["malloc"], "VERIF_JUNK": var["junk"]}) as p:
             reps = p.map("harness.checks.c06:w_requests", [{"requests": b} for b in batches], cpu_s=900)
             verdict.pool_failures(v, reps, f"C06 requests {var}")
             outputs.append([rep["value"] if rep.get("status") == "ok" else None for rep in reps])
@@ -317,6 +412,13 @@ def main() -> int:
             compared += 1
             if vals[0].get("out") not in (None, q.get("text"), []):
                 nontrivial.add(env.digest(repr(q)))
+            for vi, x in enumerate(vals):
+                if "again_differs" in x:
+                    v.add({"kind": "output_differs_within_one_process", "rule": q["kind"], "input": q["text"],
+                           "detail": {"request": {kk: vv for kk, vv in q.items() if kk != "text"}, "variant": VARIANTS[vi], "first": _short({"out": x.get("out")}), "again": _short({"out": x["again_differs"]})},
+                           "replay": {"fn": "harness.checks.c06:w_requests", "arg": {"requests": [q]}}})
+                    break
+            vals = [{kk: vv for kk, vv in x.items() if kk != "again_differs"} for x in vals]
             if any(x != vals[0] for x in vals[1:]):
                 k = next(i for i, x in enumerate(vals) if x != vals[0])
                 v.add({"kind": "output_differs_between_processes", "rule": q["kind"], "input": q["text"],
@@ -361,12 +463,12 @@ def main() -> int:
     if len(orders) < 2:
         v.inconclusive_because("fewer than two distinct completion orders were produced: the schedule dimension was not explored")
     cov = {
-        "evaluations": compared * len(VARIANTS) + tot.get("runs", 0),
+        "evaluations": compared * len(variants) + tot.get("runs", 0),
         "distinct_nontrivial": len(nontrivial) + len(set(tot.get("nontrivial", []))),
         "rule": "(a) a case = one request executed in 4 process variants (hash seed x allocator x heap junk); non-trivial = the request produced a change / a "
                 "non-empty result, distinct by digest. (b) a case = one format_files run of a generated tree under one schedule; non-trivial = the tree was changed",
         "samples": tot.get("samples", [])[:2] or [{"note": "none"}],
-        "process_variants": VARIANTS,
+        "process_variants": variants,
         "requests_compared": compared,
         "two_pass_files_available": len(twopass),
         "trees": {"trees": len(trees), "format_files_runs": tot.get("runs"), "distinct_completion_orders": len(orders), "files": tot.get("files")},
@@ -399,6 +501,9 @@ def replay(rec) -> int:
         for var in VARIANTS:
             with pool.Pool(n=1, hashseed=var["hashseed"], extra_env={"PYTHONMALLOC": var["malloc"], "VERIF_JUNK": var["junk"]}) as p:
                 outs.append(p.map(fn, [rec["replay"]["arg"]])[0].get("value"))
+        if any("again_differs" in x for o in outs for x in (o or []) if isinstance(x, dict)):
+            print(f"reproduced: the same request gives another output later in one process\nVIOLATION property={PROP} replay=(replayed)")
+            return 1
         if any(o != outs[0] for o in outs[1:]):
             print(f"reproduced: outputs differ between process variants\nVIOLATION property={PROP} replay=(replayed)")
             return 1
